@@ -641,4 +641,6 @@ def run(chk):
     from .c02 import r02_6
     chk.rule("R02.6", "(C03 dependency) EOP tables: fields, IERS column layout, unit constants at consumers")
     chk.guard(r02_6, chk)
+    from .c02 import r02_6b
+    chk.guard(r02_6b, chk)
     chk.assume("TT−TAI = 32.184 s, TAI−GPS = 19 s, TDB−TT series of the Astronomical Almanac (two terms)")
